@@ -24,7 +24,10 @@ COMPONENTS = {
     "stub": ["LMDB engine (fake)", "threads (actors)", "wall clock (virtual)"],
 }
 ASSUMPTIONS = ["well-formed expiration = canonical ASCII decimal numeral without leading zeros",
-               "malformed or repeated expiration tags may be collected or kept",
+               "a value that some reasonable parser still reads as a number (leading zeros, sign, blanks, float "
+               "syntax, non-ASCII digits) may be collected or kept; a value that is no number at all ('', '12x', "
+               "'soon') makes the event one of the 'other events': it stays",
+               "several expiration tags: decided when they all agree, free otherwise",
                "an expiration equal to T (same second) may go either way"]
 SHRINK = [["ops"], ["clients", "*", "script"]]
 
@@ -44,7 +47,7 @@ def gen_relay(rng):
             evs.append(h.ephemeral())
         elif c < 0.8:
             v = rng.choice([T0 - 5, T0 + interval // 2, T0 + interval - 1, T0 + interval + 1, T0 + 3 * interval,
-                            T0 + 10 * interval, 999, 10 ** 10])
+                            T0 + 10 * interval, 999, 10 ** 10, "soon", "12x", ""])
             evs.append(h.expiring(str(v)))
         else:
             evs.append(h.regular())
@@ -142,6 +145,9 @@ def run_relay(case, sim):
         elif not exps and ev["id"] not in final:
             viol.append({"cls": "plain-event-collected", "sig": "plain-event-collected|" + backend,
                          "detail": {"event": oracles.brief(ev)}})
+        elif exps and all(oracles.expiration_verdict(x, 0) == "keep" for x in exps) and ev["id"] not in final:
+            viol.append({"cls": "not-a-number-expiration-collected", "sig": "not-a-number-expiration-collected|" + backend,
+                         "detail": {"event": oracles.brief(ev)}})
     if not eose_after and w.final.get("alive", {}).get(1):
         probes["no_eose_after"] += 1
     probes["mode_relay"] = 1
@@ -232,7 +238,7 @@ def expclass(x, T):
         return "several"
     v = model.canon_expiration(exps[0])
     if v is None:
-        return "malformed"
+        return "not-a-number" if oracles.expiration_verdict(exps[0], T) == "keep" else "doubtful-numeral"
     d = len(exps[0])
     rel = "past" if v < int(T) else ("now" if v == int(T) else "future")
     return "%s/%ddigits" % (rel, d)
